@@ -46,6 +46,40 @@ def inst_view(pkg):
 TIMES = {}
 
 
+def inst_shim(pkg):
+    """the instrumented lock types (sync_shim.go.tmpl) for one package: a non-test overlay file"""
+    with _VIEW_LOCK:
+        key = "shim:" + pkg
+        if key in _VIEW_DONE:
+            return _VIEW_DONE[key]
+        p = os.path.join(lib.BUILD, "c11_shim_%s_%d.go" % (pkg, os.getpid()))
+        with open(os.path.join(lib.INPKG, "c11", "sync_shim.go.tmpl")) as f:
+            txt = f.read()
+        tmp = p + ".tmp"
+        with open(tmp, "w") as f:
+            f.write("//go:build verif\n\n" + txt.replace("package PKGNAME", "package " + pkg))
+        os.replace(tmp, p)
+        _VIEW_DONE[key] = p
+        return p
+
+
+def instrument_sync(rel):
+    """scratch copy (under build/) of one source file of the checkout in which the lock TYPES sync.Mutex / sync.RWMutex are
+    replaced by the instrumented ones; nothing else changes and nothing is written into the checkout"""
+    with open(os.path.join(lib.REPO, rel)) as f:
+        src = f.read()
+    out, n1 = re.subn(r"\bsync\.RWMutex\b", "verifRWMutex", src)
+    out, n2 = re.subn(r"\bsync\.Mutex\b", "verifMutex", out)
+    if re.search(r'^\s*(?:import\s+)?"sync"\s*$', out, re.M):
+        out += "\nvar _ sync.Once // keeps the import used in the instrumented copy\n"
+    p = os.path.join(lib.BUILD, "c11_inst_%d_%s" % (os.getpid(), os.path.basename(rel)))
+    tmp = p + ".tmp"
+    with open(tmp, "w") as f:
+        f.write(out)
+    os.replace(tmp, p)
+    return p, n1 + n2
+
+
 def go_run(ctx, pkgpath, pkgname, driver, test, cases, extra=None, timeout=900, more_files=None, race=False):
     import time
     t0 = time.time()
@@ -888,7 +922,17 @@ def gen_conc(ctx):
         b = pb.enc_wrapper(w)
         assert b[:2] == b"\x0a\x20"
         templates.append(b.hex())
-    return [{"templates": templates, "phantom": CONC_PHANTOM.hex(), "duration_ms": 3500 if ctx.tier == "quick" else 12000, "workers": 4}]
+    # statistics keys: every generation of the test subnets x wrapping transport x a range of library versions
+    msgs, k = [], 0
+    for gen in (1, 2, 957):
+        for tr in (1, 2, 4):
+            for lv in (2, 3, 4, 5, 6, 7):
+                k += 1
+                w = base_wrapper(tr, gen=gen, libver=lv, v4=1, v6=0, rng=rng, secret=bytes([k]) * 32)
+                w["source"] = 2
+                msgs.append(pb.enc_wrapper(w).hex())
+    return [{"templates": templates, "phantom": CONC_PHANTOM.hex(), "duration_ms": 3500 if ctx.tier == "quick" else 12000, "workers": 4,
+             "housekeeping": True, "stats_workers": 4, "stats_msgs": msgs}]
 
 
 def post_conc(ctx, name, result):
@@ -899,16 +943,118 @@ def post_conc(ctx, name, result):
         why = m.group(1) if m else ("workers did not stop (deadlock?)" if res and not res[0].get("done") else "no result")
         tail = out[out.index(m.group(1)):][:1500] if m else out[-1200:]
         ctx.fail("crash:station-concurrent/%s" % re.sub(r"[^a-zA-Z]+", "-", why)[:50].strip("-"),
-                 "station process ended abnormally (%s) while ZMQ registrations for one phantom were ingested concurrently with first-flight bytes "
-                 "handed to every wrapping transport's WrapConnection for that phantom and with the sweeper [%s]: %s" % (why, name, tail),
+                 "station process ended abnormally (%s) while ZMQ registrations for one phantom were ingested (and accepted registrations under 50 "
+                 "generation / transport / library-version keys accounted) concurrently with first-flight bytes handed to every wrapping transport's "
+                 "WrapConnection for that phantom, with the sweeper and with the statistics ticker's body (PrintAndReset of every statistics module, "
+                 "again and again) [%s]: %s" % (why, name, tail),
                  {"entry": "station-concurrent", "lane": name, "phantom": CONC_PHANTOM.hex(),
-                  "inputs": "registration messages with registration_response.ipv4addr = the phantom and fresh shared secrets; connections delivering 32..8192 arbitrary bytes to that phantom"})
+                  "inputs": "registration messages with registration_response.ipv4addr = the phantom and fresh shared secrets; well-formed registrations "
+                            "of every generation x transport x library version 2..7; connections delivering 32..8192 arbitrary bytes to that phantom"})
         ctx.count(("conc", name), nontrivial=True, kind="conc/%s/crash" % name)
         return
     ctx.cov.setdefault("concurrent_lane", {})[name] = res[0]
-    if res[0]["ingested"] < 50 or res[0]["wraps"] < 50:
+    if res[0]["ingested"] < 50 or res[0]["wraps"] < 50 or res[0].get("epochs", 0) < 20 or res[0].get("stats_adds", 0) < 1000 or res[0].get("stats_regs", 0) < 30:
         ctx.broken("generator-selftest", "the concurrent station lane did too little work: %s" % res[0])
     ctx.count(("conc", name), nontrivial=True, kind="conc/%s/clean" % name)
+
+
+# ---------------------------------------------------------------- station: statistics epoch, forced interleavings
+STATS_FILE = "pkg/station/lib/registration_stats.go"
+
+
+def gen_stats(ctx):
+    """threads = ingest workers (real parseRegMessage + ingestRegistration on wire messages) and epoch changes (Reset / the ticker's
+    PrintAndReset); the driver measures how many lock-protected regions each thread has on the running code and enumerates the
+    interleavings (all of them for two short threads; otherwise: one thread runs to its end while another waits in front of its
+    k-th lock, for every k and every ordered pair, plus explicit alternations and random interleavings)"""
+    rng = fixed_rng("stats")
+    n = [0]
+
+    def msg(tr, gen, lv):
+        n[0] += 1
+        w = base_wrapper(tr, gen=gen, libver=lv, v4=1, v6=0, rng=rng, secret=bytes([n[0]]) * 32)
+        w["source"] = 2
+        return pb.enc_wrapper(w).hex()
+
+    W = lambda *ms: {"kind": "ingest", "msgs": list(ms)}
+    R = lambda k=1: {"kind": "reset", "n": k}
+    T = lambda k=1: {"kind": "printreset", "n": k}
+    cases = []
+    for tr, gen, lv in ((1, 957, 4), (2, 1, 3), (4, 2, 6)):
+        cases.append(("w1-reset", {"threads": [W(msg(tr, gen, lv)), R()], "expand": True, "max_all": 400}))
+    cases.append(("w1-ticker", {"threads": [W(msg(1, 2, 5)), T()], "expand": True, "max_all": 400}))
+    cases.append(("w2", {"threads": [W(msg(1, 957, 4)), W(msg(1, 957, 4))], "expand": True, "max_all": 400}))
+    cases.append(("w2", {"threads": [W(msg(2, 1, 3)), W(msg(4, 957, 7))], "expand": True, "max_all": 400}))
+    # a worker handling three registrations against three epoch changes: an epoch change in front of every lock of the worker
+    # (1, 2, 3 and 4 steps of the resetter per step of the worker: whatever the number of regions of Reset is, one of them is "one whole Reset")
+    alt = [[0] + [1] * k for k in (1, 2, 3, 4)]
+    scheds = [a * 40 for a in alt] + [([1] * k + [0]) * 40 for k in (1, 2, 3)]
+    cases.append(("mix", {"threads": [W(msg(1, 957, 4), msg(2, 957, 4), msg(1, 1, 3)), R(12)], "scheds": scheds, "expand": True, "max_all": 0, "n_random": 10,
+                          "seed": 11}))
+    cases.append(("mix", {"threads": [W(msg(4, 2, 6), msg(1, 2, 6)), W(msg(4, 2, 6)), T(2)], "expand": True, "max_all": 0,
+                          "n_random": 30 if ctx.tier == "quick" else 400, "seed": ctx.rng.randrange(1 << 30)}))
+    return cases
+
+
+def stats_job(ctx, cases):
+    inst, nrepl = instrument_sync(STATS_FILE)
+    extra = {STATS_FILE: inst, "pkg/station/lib/zz_verif_sync.go": inst_shim("lib")}
+    r = go_run(ctx, "pkg/station/lib", "lib", "stats_sched_driver_test.go", "TestVerifC11StatsSched", [c for _, c in cases], extra=extra, timeout=300,
+               more_files={"zz_verif_driver2_test.go": "c11/station_driver_test.go"})
+    return r + (nrepl,)
+
+
+def g_tkind(th, keys):
+    if th["kind"] == "ingest":
+        return "TWorker [%s]" % "; ".join("(%d, %d, %d)" % tuple(k) for k in (keys or []))
+    return "%s %d%%nat" % ("TReset" if th["kind"] == "reset" else "TTicker", th["n"])
+
+
+def post_stats(ctx, cases, result):
+    """direct oracle: under no forced schedule does a thread panic, hang or return with a statistics lock held.  Returns the
+    Gallina terms (model on the same threads and schedule: outcome, and the counters when the region structure is the model's)."""
+    rc, out, res, nrepl = result
+    terms, idx = [], []
+    if res is None or len(res) != len(cases):
+        if "[build failed]" in out or "[setup failed]" in out:
+            # the lock types of the statistics file cannot be substituted (they escape the file): the forced lane does not apply;
+            # the free-running lane (housekeeping in the child process) still covers the class
+            ctx.cov["stats_sched"] = "instrumented copy does not build: " + out[-400:]
+            return None
+        fail_driver(ctx, "stats-sched", out)
+        return None
+    structure = {}
+    for ci, ((label, c), o) in enumerate(zip(cases, res)):
+        structure.setdefault(label, []).append(o["alone"])
+        for th, n in zip(c["threads"], o["alone"]):
+            if n == 0:
+                ctx.broken("generator-selftest", "statistics lane: a %s thread took no statistics lock when run alone (%d lock types instrumented)" % (th["kind"], nrepl), c)
+        for r in o["runs"]:
+            kind = "stats-sched/%s/%s" % (label, r["out"])
+            ctx.count(("stats", label, tuple(r["sched"]), ci), nontrivial=True, kind=kind)
+            if r["out"] != "ok":
+                th = c["threads"][r["thread"]] if 0 <= r["thread"] < len(c["threads"]) else {"kind": "?"}
+                fn = re.sub(r"\.func\d+(\.\d+)*$", "", r["detail"].split(" <- ")[1]) if r["out"] == "panic" and " <- " in r["detail"] else th["kind"]
+                what = {"panic": "panicked in a goroutine nothing recovers (the station dies)", "hang": "did not get on",
+                        "leak": "returned with a statistics lock held (the next epoch never starts, then every worker stops)"}[r["out"]]
+                ctx.fail("%s:stats-epoch/%s" % (r["out"], fn),
+                         "statistics epoch against ingest, forced schedule: thread %d (%s) %s: %s.  Threads: %s; schedule (thread that runs its next "
+                         "lock-protected region) %s; locks taken in that order: %s"
+                         % (r["thread"], th["kind"], what, r["detail"][:300], [(t["kind"], len(t.get("msgs") or []) or t.get("n")) for t in c["threads"]],
+                            r["sched"][:60], r["trace"][:400]),
+                         {"entry": "stats-epoch", "threads": c["threads"], "sched": r["sched"], "observed": {k: r[k] for k in ("out", "detail", "thread", "step", "sections")}})
+            ocode = {"ok": 0, "panic": 1}.get(r["out"], 2)
+            counts = r.get("counts") or [[-1, -1, -1]] * len(c["threads"])
+            terms.append("AStats ([%s], [%s]%%nat, [%s], %d, [%s])" % (
+                "; ".join(g_tkind(th, o["keys"][i]) for i, th in enumerate(c["threads"])),
+                "; ".join(str(x) for x in r["sched"]),
+                "; ".join(str(x) for x in r["sections"]), ocode,
+                "; ".join("(%s, %s, %s)" % tuple(gopt(None if v < 0 else v, gN) for v in cnt) for cnt in counts)))
+            idx.append({"label": label, "threads": c["threads"], "sched": r["sched"], "observed": r})
+    ctx.cov["stats_sched"] = {"lock_types_instrumented": nrepl, "regions_alone": structure, "schedules": len(terms)}
+    if res and res[0]["runs"]:
+        ctx.sample({"entry": "stats-epoch", "threads": cases[0][1]["threads"], "run": res[0]["runs"][len(res[0]["runs"]) // 2]})
+    return terms, idx
 
 
 # ---------------------------------------------------------------- registrar: DNS processRequest
@@ -1458,9 +1604,14 @@ REQUIRED_KINDS = [
 ]
 
 
+# produced when the lock types of the statistics file can be instrumented (always, on the code as it is)
+STATS_KINDS = ["stats-sched/w1-reset/ok", "stats-sched/w1-ticker/ok", "stats-sched/w2/ok", "stats-sched/mix/ok"]
+
+
 def cleanup():
     import glob
-    for f in glob.glob(os.path.join(lib.BUILD, "c11_view_*_%d_test.go" % os.getpid())):
+    for f in (glob.glob(os.path.join(lib.BUILD, "c11_view_*_%d_test.go" % os.getpid())) + glob.glob(os.path.join(lib.BUILD, "c11_shim_*_%d.go" % os.getpid()))
+              + glob.glob(os.path.join(lib.BUILD, "c11_inst_%d_*" % os.getpid()))):
         try:
             os.remove(f)
         except OSError:
@@ -1514,6 +1665,7 @@ def run_(ctx):
     dc_cases = gen_dtlsconn(ctx)
     seqs = gen_seq(ctx)
     conc_cases = gen_conc(ctx)
+    ss_cases = gen_stats(ctx)
     pf_extra = []
     # cases carried by a replay file (the enumeration itself is deterministic, so re-running the check replays it anyway)
     for f in (ctx.replay or {}).get("failures", []):
@@ -1598,6 +1750,7 @@ def run_(ctx):
         "seq": lambda: go_run(ctx, "pkg/regserver/apiregserver", "apiregserver", "api_driver_test.go", "TestVerifC11ApiSeq",
                               [{"steps": st} for _, st in seqs], extra=EXPORT_SHIM),
         "conc": lambda: go_run(ctx, "pkg/station/lib", "lib", "station_driver_test.go", "TestVerifC11StationConc", conc_cases, timeout=300),
+        "stats": lambda: stats_job(ctx, ss_cases),
         "dtlsconn": lambda: go_run(ctx, "pkg/transports/connecting/dtls", "dtls", "dtls_driver_test.go", "TestVerifC11DtlsConnect", dc_cases),
         "prefix-dump": lambda: go_run(ctx, "pkg/transports/wrapping/prefix", "prefix", "prefix_driver_test.go", "TestVerifC11Prefix", [{"op": "dump"}]),
     }
@@ -1658,6 +1811,13 @@ def run_(ctx):
     res = ok("seq", len(seqs))
     if res:
         add("seq", post_seq(ctx, seqs, res), [{"label": l} for l, _ in seqs])
+    st = post_stats(ctx, ss_cases, results["stats"])
+    required = list(REQUIRED_KINDS)
+    if st is not None:
+        for t, o in zip(*st):
+            terms.append(t)
+            origin.append(("stats-epoch", o))
+        required += STATS_KINDS
     post_conc(ctx, "plain", results["conc"])
     if "conc-race" in results:
         post_conc(ctx, "race", results["conc-race"])
@@ -1668,7 +1828,7 @@ def run_(ctx):
     if res:
         add("dns", post_dns(ctx, dns_pkts, res), dns_pkts)
         ctx.sample({"entry": "dns responder", "pkt": dns_pkts[0][1].hex(), "observed": {k: res[0][k] for k in ("p_err", "kind", "rflags")}})
-    ctx.require_kinds(REQUIRED_KINDS)
+    ctx.require_kinds(required)
     ctx.cov["timing_s"] = TIMES
     if tbl is None:
         return
